@@ -25,9 +25,9 @@ func main() {
 	}
 	quick := *tier == "quick"
 	list := []string{"mem-skiplist", "mem-radix", "mem-btree", "pebble"}
-	if !quick {
-		list = append(list, "rocksdb")
-	}
+	// rocksdb is not in the list: with the fixed 3-byte prefix extractor the store configures, an unbounded
+	// iterator (what the reference dump needs) is not a total-order scan, so the comparison would not be sound
+	// (DESIGN.md 9.1 C20); `-engines rocksdb` remains for experiments only
 	if *engs != "" {
 		list = strings.Split(*engs, ",")
 	}
